@@ -729,6 +729,21 @@ impl Gen {
             return None;
         }
         let actor = format!("{}{}", tail, victim);
+        if rng.chance(1, 6) {
+            // the liquidation entry point with both halves crafted: vamm = truncated address, trader = completion + victim
+            let msg = serde_json::json!({"liquidate": {"vamm": head, "trader": actor, "quote_asset_limit": "0"}});
+            return Some(Step::new("stranger", Op::RawEngine { json: msg.to_string() }));
+        }
+        if rng.chance(1, 6) {
+            // something that is not a registered vAMM at all: another contract of the deployment or a plain account
+            let bogus = r.w.resolve(*rng.pick(&["@fp", "@if", "@engine", "stranger", "@token"]));
+            let msg = match rng.below(3) {
+                0 => serde_json::json!({"open_position": {"vamm": bogus, "side": "buy", "margin_amount": "1000", "leverage": r.w.d.to_string(), "base_asset_limit": "0"}}),
+                1 => serde_json::json!({"pay_funding": {"vamm": bogus}}),
+                _ => serde_json::json!({"withdraw_margin": {"vamm": bogus, "amount": "1"}}),
+            };
+            return Some(Step::new(&victim, Op::RawEngine { json: msg.to_string() }));
+        }
         let msg = match rng.below(5) {
             0 | 1 => serde_json::json!({"close_position": {"vamm": head, "quote_asset_limit": "0"}}),
             2 => serde_json::json!({"withdraw_margin": {"vamm": head, "amount": "1"}}),
@@ -739,7 +754,7 @@ impl Gen {
     }
 
     fn gen_adversary(&mut self, r: &mut Runner, rng: &mut Rng) -> Step {
-        if matches!(self.profile.prop.as_str(), "C10" | "C03") && rng.chance(2, 3) {
+        if matches!(self.profile.prop.as_str(), "C10" | "C03" | "C14") && rng.chance(2, 3) {
             if let Some(st) = self.gen_collision(r, rng) {
                 return st;
             }
